@@ -17,6 +17,28 @@ pub fn set_yield_point(f: Option<Box<dyn Fn(&'static str, &'static str)>>) {
     YIELD.with(|y| *y.borrow_mut() = f);
 }
 
+type PhaseSink = Box<dyn Fn(&'static str, &heed::RoTxn, u16, &[u32])>;
+
+thread_local! {
+    static PHASE: RefCell<Option<PhaseSink>> = const { RefCell::new(None) };
+}
+
+/// Installs (or removes) the closure called at the phase boundaries of `Writer::build` on the
+/// thread that runs the build. It receives the phase name, the transaction lent to the build
+/// (read access), the index and the current roots.
+pub fn set_phase_sink(f: Option<PhaseSink>) {
+    PHASE.with(|y| *y.borrow_mut() = f);
+}
+
+/// Called by `Writer::build` after each phase; does nothing unless a sink is installed.
+pub fn phase(name: &'static str, rtxn: &heed::RoTxn, index: u16, roots: &[u32]) {
+    PHASE.with(|y| {
+        if let Some(f) = y.borrow().as_ref() {
+            f(name, rtxn, index, roots)
+        }
+    });
+}
+
 fn yield_point(ty: &'static str, op: &'static str) {
     YIELD.with(|y| {
         if let Some(f) = y.borrow().as_ref() {
